@@ -21,6 +21,7 @@ func propC17(r *Report, tier string) {
 	ruleCompoundSwitchCoverage(r, "K13-compound-coverage")
 	rulePooledLexerReset(r, "K9b-pooled-lexer-reset")
 	ruleQueryOptionsReachSearcher(r, "K9b-query-options-reach-searcher", queryOptionAllow)
+	ruleTempDecoderDefaultsOnAbsenceOnly(r, "K9-temp-decoder-absence", "bleve", "search", "search/query")
 	ruleCompactFormComplete(r, "K9c-compact-form-complete", "search", "search/query", "mapping", "bleve")
 	r.Floor("K10-dispatch", 25)
 	r.Floor("K9c-marshal-keys-read", 8)
